@@ -162,7 +162,13 @@ impl<'a> Parser<'a> {
             Token::Lparen => {
                 let result = self.expr(0)?;
                 match self.advance() {
-                    Token::Rparen => Ok(result),
+                    Token::Rparen => match self.peek(0) {
+                        Token::Lparen => {
+                            let message = "Parenthesized expressions can't be a function name";
+                            Err(self.err(&Token::Lparen, message, true))
+                        }
+                        _ => Ok(result),
+                    },
                     ref t => Err(self.err(t, "Expected ')' to close '('", false)),
                 }
             }
